@@ -126,14 +126,14 @@ def run (P : Params) (src : Array UInt8) : Nat → St → Option (List PSeq × S
       | none => none
       | some (l, stf) => some (s :: l, stf)
 
-/-- tail-recursive twin of `run` for execution (same result: `runTR_eq`) -/
-def runTR (P : Params) (src : Array UInt8) : Nat → St → Array PSeq → Option (Array PSeq × St)
-  | 0, st, acc => some (acc, st)
+/-- tail-recursive twin of `run` for execution (same result: `Proofs/FastProof.runTR_eq`); `acc` = sequences so far, newest first -/
+def runTR (P : Params) (src : Array UInt8) : Nat → St → List PSeq → Option (List PSeq × St)
+  | 0, st, acc => some (acc.reverse, st)
   | fuel+1, st, acc =>
     match step P src st with
     | .fail => none
-    | .last st' => some (acc, st')
-    | .seq s st' => runTR P src fuel st' (acc.push s)
+    | .last st' => some (acc.reverse, st')
+    | .seq s st' => runTR P src fuel st' (s :: acc)
 
 /-- `LZ4_compress_generic` for this instance: `none` = returns 0 -/
 def compressP (P : Params) (src : Array UInt8) (tableSize : Nat) : Option (List PSeq × Nat) :=
@@ -157,11 +157,11 @@ def compressPTR (P : Params) (src : Array UInt8) (tableSize : Nat) : Option (Lis
     (if over P (n + 1 + (n + 255 - 15) / 255) then none else some ([], 0))
   else
     let tbl0 := (Array.replicate tableSize 0).setIfInBounds (P.hash 0) 0
-    match runTR P src (n + 1) { anchor := 0, ip := 1, tbl := tbl0, op := 0 } #[] with
+    match runTR P src (n + 1) { anchor := 0, ip := 1, tbl := tbl0, op := 0 } [] with
     | none => none
     | some (l, st) =>
       let lastRun := n - st.anchor
-      if over P (st.op + lastRun + 1 + (lastRun + 255 - 15) / 255) then none else some (l.toList, st.anchor)
+      if over P (st.op + lastRun + 1 + (lastRun + 255 - 15) / 255) then none else some (l, st.anchor)
 
 def toSeq (src : Array UInt8) (s : PSeq) : Seq := ⟨(src.extract s.lit (s.lit + s.ll)).toList, s.off, s.ml⟩
 
@@ -181,12 +181,19 @@ def realHash (src : Array UInt8) (byU16 : Bool) (i : Nat) : Nat :=
   if byU16 then (LZ4V.Gen.LZ4_hash4 (rdLE src i 4) LZ4V.Gen.byU16).toNat
   else (LZ4V.Gen.LZ4_hash5 (rdLE src i 8) LZ4V.Gen.byU32).toNat
 
-/-- what `LZ4_compress_fast(src, dst, n, cap, acceleration)` returns on a fresh state: the block, or `none` for 0 -/
+/-- parameters `LZ4_compress_fast_extState` derives from its arguments on a fresh state -/
+def fastParams (src : Array UInt8) (acceleration : Int) (cap bound : Nat) : Params :=
+  { hash := realHash src (decide (src.size < LZ4V.Gen.LZ4_64Klimit)), byU16 := decide (src.size < LZ4V.Gen.LZ4_64Klimit),
+    accel := if acceleration < 1 then LZ4V.Gen.LZ4_ACCELERATION_DEFAULT else if acceleration > LZ4V.Gen.LZ4_ACCELERATION_MAX then LZ4V.Gen.LZ4_ACCELERATION_MAX else acceleration.toNat,
+    limit := if cap ≥ bound then none else some cap }
+
+def fastTableSize (src : Array UInt8) : Nat :=
+  if src.size < LZ4V.Gen.LZ4_64Klimit then 2 * LZ4V.Gen.LZ4_HASH_SIZE_U32 else LZ4V.Gen.LZ4_HASH_SIZE_U32
+
+/-- what `LZ4_compress_fast(src, dst, n, cap, acceleration)` returns on a fresh state: the block, or `none` for 0
+    (`bound` = `LZ4_compressBound(n)`; executed with the tail-recursive loop) -/
 def compressFast (src : Array UInt8) (acceleration : Int) (cap : Nat) (bound : Nat) : Option (List UInt8) :=
-  let byU16 := src.size < LZ4V.Gen.LZ4_64Klimit
-  let accel : Nat := if acceleration < 1 then LZ4V.Gen.LZ4_ACCELERATION_DEFAULT else if acceleration > LZ4V.Gen.LZ4_ACCELERATION_MAX then LZ4V.Gen.LZ4_ACCELERATION_MAX else acceleration.toNat
-  let P : Params := { hash := realHash src byU16, byU16 := byU16, accel := accel, limit := if cap ≥ bound then none else some cap }
-  match compressPTR P src (if byU16 then 2 * LZ4V.Gen.LZ4_HASH_SIZE_U32 else LZ4V.Gen.LZ4_HASH_SIZE_U32) with
+  match compressPTR (fastParams src acceleration cap bound) src (fastTableSize src) with
   | none => none
   | some (l, anchor) => some (LZ4V.Spec.Block.serialize (l.map (toSeq src)) (src.extract anchor src.size).toList)
 
